@@ -131,7 +131,7 @@ def run(ck):
         report("witness of C19_reduce_step_refuted: Crystal(diag(5,1,1), atoms at x = 0, 2/5, 4/5, 1/5, 3/5) raises ArithmeticError: %s" % e,
                dict(wit, reproduce="Crystal(np.diag([5.,1.,1.]), [[np.array([k/5,0,0]) for k in (0,2,4,1,3)]])"), "c19-reduce-nondividing")
     terms = []
-    ncases = ck.n(70, 500)
+    ncases = ck.n(70, 1500)
     tries = 0
     while stats["cases"] < ncases and tries < 20 * ncases:
         tries += 1
